@@ -442,6 +442,53 @@ def run(case, ctx):
               "ip-address-probe", repr(ip))
     patterns = {tuple(chips[xy]["states"]) for xy in responding}
     dead_links = any(len(chips[xy]["links"]) < 6 for xy in responding)
+    # -------------------------------------------------- the machine changes
+    # and is probed again through the same controller: the second description
+    # has to be of the machine as it is now
+    if responding:
+        crng = random.Random(len(responding) * 31 + ew * 7 + eh)
+        xy = sorted(responding)[crng.randrange(len(responding))]
+        d, c = chips[xy], m.chips[xy]
+        if d["links"]:
+            gone = sorted(d["links"])[crng.randrange(len(d["links"]))]
+            d["links"] = [l for l in d["links"] if l != gone]
+            c.links = set(d["links"])
+        p = crng.randrange(d["ncores"])
+        d["states"] = list(d["states"])
+        valid = sorted(int(a) for a in consts.AppState)
+        d["states"][p] = [v for v in valid
+                          if v != d["states"][p]][crng.randrange(
+                              len(valid) - 1)]
+        c.core_state = list(d["states"])
+        m.sync_vcpu(c)
+        d["sdram"] = max(0, d["sdram"] - 1 - crng.randrange(1000))
+        c.sdram_free = d["sdram"]
+        died = None
+        if len(responding) > 2 and crng.random() < .5:
+            died = sorted(responding - {xy, (0, 0)})[0]
+            m.chips[died].silent = True
+        try:
+            si2 = mc.get_system_info()
+        except Exception as e:
+            raise Violation("unexpected-exception", "second get_system_info: "
+                            "%s: %s" % (type(e).__name__, e))
+        ctx.hit("reprobed_after_change")
+        check(set(si2) == responding - {died}, "reprobe-responding-chips",
+              "second probe lists %d chips, %d respond now" %
+              (len(si2), len(responding - {died})))
+        ci = si2[xy]
+        got = ({int(l) for l in ci.working_links},
+               [int(s_) for s_ in ci.core_states],
+               ci.largest_free_sdram_block)
+        want = (set(d["links"]), [int(s_) for s_ in d["states"]], d["sdram"])
+        check(got == want, "reprobe-stale",
+              "chip %r after the change: reported %r, machine has %r" %
+              (xy, got, want))
+        check(int(mc.get_processor_status(p, xy[0], xy[1]).cpu_state) ==
+              d["states"][p], "reprobe-stale", "core state of %r core %d" %
+              (xy, p))
+        if died is not None:
+            m.chips[died].silent = False
     if len(responding) >= 3 and len(patterns) >= 2 and (
             silent or ghosts or unlisted or dead_links or
             len(responding) < ew * eh):
